@@ -171,7 +171,8 @@ PROPS = {
         "assumptions": ["unique element values", "4 fibers x 4/6 operations (concurrent), up to 12/24 commands (sequential)"],
         "stages": [{"family": "rcu", "flavour": "plain", "target": "C12s", "cases": (300000, 3000000), "maxsec": (20, 200)},
                    {"family": "rcu", "flavour": "plain", "target": "C12", "cases": (500000, 6000000), "maxsec": (40, 400)},
-                   {"family": "rcu", "flavour": "plain", "target": "C12f", "cases": (200000, 3000000), "maxsec": (25, 300)}],
+                   {"family": "rcu", "flavour": "plain", "target": "C12f", "cases": (200000, 3000000), "maxsec": (25, 300)},
+                   {"family": "rcu", "flavour": "plain", "target": "C12r", "cases": (100000, 1000000), "maxsec": (15, 150)}],
     },
     "C13": {
         "level": "exploration",
